@@ -43,10 +43,25 @@ def pretty_holder(h, ctx):
         return pretty_call_alt(ctx, h.fn, args=tuple(h.args), kwargs=dict(h.kwargs))
     if h.style == 'alt-odict':
         return pretty_call_alt(ctx, h.fn, args=tuple(h.args), kwargs=collections.OrderedDict(h.kwargs))
+    if h.style == 'alt-odict-subclass':
+        return pretty_call_alt(ctx, h.fn, args=tuple(h.args), kwargs=MyOD(h.kwargs))
+    if h.style == 'alt-generator':
+        return pretty_call_alt(ctx, h.fn, args=tuple(h.args), kwargs=((k, v) for k, v in h.kwargs))
+    if h.style == 'alt-tuple-pairs':
+        return pretty_call_alt(ctx, h.fn, args=list(h.args), kwargs=tuple(h.kwargs))
     return pretty_call_alt(ctx, h.fn, args=tuple(h.args), kwargs=list(h.kwargs))
 
 
-STYLES = ['call', 'alt-dict', 'alt-odict', 'alt-pairs']
+class MyOD(collections.OrderedDict):
+    pass
+
+
+class DictSub(dict):
+    pass
+
+
+NT2 = collections.namedtuple('NT2', 'p q')
+STYLES = ['call', 'alt-dict', 'alt-odict', 'alt-pairs', 'alt-odict-subclass', 'alt-generator', 'alt-tuple-pairs']
 
 
 def make_callable(module, qualname):
@@ -128,7 +143,8 @@ def gen_holder(rng, depth=0):
     fn = make_callable(module, qualname)
     mode = rng.random()
     if mode < 0.2:
-        args = [rng.choice([[1, 2], {'k': 1}, (1, 2), [], {}, (), ['x' * 30, 'y' * 30, 'z' * 30], prettyprinter.comment([1, 2], 'hugged?')])]
+        args = [rng.choice([[1, 2], {'k': 1}, (1, 2), [], {}, (), ['x' * 30, 'y' * 30, 'z' * 30], prettyprinter.comment([1, 2], 'hugged?'),
+                            DictSub({'k': [1]}), NT2(1, [2]), {1, 2}, frozenset([1]), collections.OrderedDict([('a', 1)]), 'a plain string', 5])]
         kwargs = []
     else:
         args = [gen_arg(rng, depth) for _ in range(rng.choice([0, 0, 1, 1, 2, 3, 5]))]
@@ -215,6 +231,8 @@ def check_call(sh, h, cfg, case):
         sh.violation(key, 'printed call differs from the call made: %r' % text[:400], case)
         return text
     ns = recorder_namespace(CALLABLE_IDS)
+    ns['vlib'] = __import__('vlib')
+    ns['collections'] = collections
     try:
         res = V.evaluate(text, ns)
     except Exception as e:
@@ -234,7 +252,7 @@ def check_call(sh, h, cfg, case):
 
 
 # --------------------------------------------------------------- part B
-FIELD_VALUES = [0, 1, 'a', 'lorem ipsum dolor sit amet, consectetur', None, [1, 2], {'k': [1]}, (1,), 2.5, 10 ** 12, ('nightly', 'linux')]
+FIELD_VALUES = [False, '', 0, 1, 'a', 'lorem ipsum dolor sit amet, consectetur', None, [1, 2], {'k': [1]}, (1,), 2.5, 10 ** 12, ('nightly', 'linux')]
 _defs = {}
 
 
